@@ -86,7 +86,11 @@ InitEnv == [open |-> FALSE, conns |-> 0, keys |-> 0, ins |-> 0, resolved |-> {},
             owed |-> <<>>,             \* [type, pid, n, ans]: answers the broker owes / has given on this connection
             connectSeen |-> FALSE, connectFlushed |-> FALSE, connackSent |-> FALSE, connectClean |-> FALSE,
             hasSession |-> FALSE, allLegal |-> TRUE, haltSteps |-> 0,
-            lastIn |-> [q1 |-> 0, q2 |-> 0], nextIn |-> 1, pubrecSeen |-> {}, aliasBound |-> FALSE, tamIn |-> 0]
+            lastIn |-> [q1 |-> 0, q2 |-> 0], nextIn |-> 1, pubrecSeen |-> {}, aliasBound |-> FALSE, tamIn |-> 0,
+            \* ghost: the server bound an inbound alias on an EARLIER connection.  Nothing in the specification depends on it; it keeps
+            \* the histories "alias bound before the reconnect" and "never bound" apart in the view, so that both are exported as scripts -
+            \* an implementation that wrongly keeps connection-scoped state across a reconnect tells them apart although the specification does not
+            prevBound |-> FALSE]
 
 OweFor(e) == CASE e.type = "CONNECT" -> <<[type |-> "CONNACK", pid |-> 0, n |-> 0, ans |-> FALSE]>>
                [] e.type = "PUBLISH" /\ e.qos = 1 -> <<[type |-> "PUBACK", pid |-> e.pid, n |-> 0, ans |-> FALSE]>>
@@ -215,7 +219,7 @@ RxEv(s, p, res, legal, allLegal) ==
     Ev(s, "Rx", [conn |-> 0, type |-> p.type, pid |-> p.pid, rc |-> p.rc, codes |-> p.codes, sp |-> p.sp, rm |-> p.rm, ka |-> p.ka, tam |-> p.tam,
                  mqos |-> p.mqos, mps |-> p.mps, ret |-> p.ret, wild |-> p.wild, subid |-> p.subid, shared |-> p.shared, acid |-> p.acid, sei |-> p.sei,
                  qos |-> p.qos, dup |-> p.dup, topic |-> p.topic, alias |-> IF p.alias = -1 THEN 0 ELSE p.alias, hash |-> p.hash, result |-> res.res, state |-> res.s.st,
-                 legal |-> B2I(legal), alllegal |-> B2I(allLegal), chunks |-> 1])
+                 legal |-> B2I(legal), alllegal |-> B2I(allLegal), chunks |-> 1, decoded |-> IF p.type = "GARBAGE" THEN 0 ELSE 1])
 
 Feed(p, legal, env2, decision) ==
     LET r == Recv(es, Now, p)
@@ -332,7 +336,7 @@ OpenStep ==
     /\ LET r == ConnOpened(es, Now, Now + Deadline)
            ok == r.res = "ok"
            env2 == IF ok THEN [env EXCEPT !.open = TRUE, !.conns = @ + 1, !.owed = <<>>, !.connectSeen = FALSE, !.connectFlushed = FALSE,
-                                          !.connackSent = FALSE, !.aliasBound = FALSE]
+                                          !.connackSent = FALSE, !.aliasBound = FALSE, !.prevBound = @ \/ env.aliasBound]
                    ELSE env
        IN Commit(r, <<OpenEv(r)>>, <<>>, env2, [a |-> "Open", deadline |-> (Deadline * 1000) \div TPS])
 
@@ -394,4 +398,9 @@ Witness == \A w \in Witnesses : (w \in TLCGet(1)) \/ (PrintT(<<"WITNESS", w>>) /
 
 \* script export: decision histories (BFS-shortest) of a sample of the states at or below the chosen depth
 Export == (ExportDepth > 0 /\ Len(hist) > ExportDepth /\ TLCGet("stats").distinct % ExportEvery = 0) => PrintT(<<"SCRIPT", ToJson(hist)>>)
+\* Export per TRANSITION (an action constraint, evaluated on every step TLC generates, also those that lead to a state already
+\* seen): with the history hidden from the view a state keeps the first history that reached it, so histories that end in the
+\* same state as a shorter one - an illegal packet after a long preparation ends in the same Halted state as the same packet
+\* sent at once - would never be exported by a state invariant.  Every one-step extension of a first history is.
+ExportEdge == (ExportDepth > 0 /\ Len(hist') > ExportDepth /\ TLCGet("stats").generated % ExportEvery = 0) => PrintT(<<"SCRIPT", ToJson(hist')>>)
 =============================================================================
